@@ -129,6 +129,8 @@ type pg struct {
 	loopN      int
 	pre        []string // top-level Fixpoints of the loops of the function being translated
 	out        strings.Builder
+	top        bool    // genIndexTop (indextop.go): the hooks top* below are active
+	topState   *topCtx // state of those hooks
 }
 
 func (g *pg) fresh(p string) string {
@@ -156,6 +158,11 @@ func pgMap(t string) (string, string, bool) {
 }
 
 func (g *pg) goType(x ast.Expr) (string, error) {
+	if g.top {
+		if t, handled, err := g.topGoType(x); handled {
+			return t, err
+		}
+	}
 	switch t := x.(type) {
 	case *ast.Ident:
 		switch t.Name {
@@ -225,6 +232,11 @@ func (g *pg) goType(x ast.Expr) (string, error) {
 }
 
 func (g *pg) coqType(t string) (string, error) {
+	if g.top {
+		if ct, handled := g.topCoqType(t); handled {
+			return ct, nil
+		}
+	}
 	if el, ok := pgSlice(t); ok {
 		ct, err := g.coqType(el)
 		if err != nil {
@@ -275,6 +287,11 @@ func (g *pg) coqType(t string) (string, error) {
 
 // zero value of a type
 func (g *pg) zero(t string) (string, error) {
+	if g.top {
+		if z, handled := g.topZero(t); handled {
+			return z, nil
+		}
+	}
 	if _, ok := pgSlice(t); ok {
 		ct, err := g.coqType(t)
 		if err != nil {
@@ -357,6 +374,11 @@ func (g *pg) conv(v pgVal, ty string) (pgVal, error) {
 	if v.ty == ty {
 		return v, nil
 	}
+	if g.top {
+		if r, handled := g.topConv(v, ty); handled {
+			return r, nil
+		}
+	}
 	if v.ty == ltUntyped && pgIsInt(ty) {
 		lo, hi := lgRange(ty)
 		if v.c.Cmp(lo) < 0 || v.c.Cmp(hi) > 0 {
@@ -377,6 +399,11 @@ func (g *pg) conv(v pgVal, ty string) (pgVal, error) {
 
 // expr translates an expression; operations that can panic are appended to binds, in evaluation order.
 func (g *pg) expr(env *pgEnv, x ast.Expr, binds *[]string) (pgVal, error) {
+	if g.top {
+		if v, handled, err := g.topExpr(env, x, binds); handled {
+			return v, err
+		}
+	}
 	switch x := x.(type) {
 	case *ast.ParenExpr:
 		return g.expr(env, x.X, binds)
@@ -514,6 +541,11 @@ func (g *pg) index(env *pgEnv, x *ast.IndexExpr, binds *[]string) (pgVal, error)
 	if err != nil {
 		return pgVal{}, err
 	}
+	if g.top {
+		if r, handled, err := g.topIndex(v, iv); handled {
+			return r, err
+		}
+	}
 	if k, el, ok := pgMap(v.ty); ok { // m[k] in a value context: the zero value when there is no entry
 		if iv, err = g.conv(iv, k); err != nil {
 			return pgVal{}, fmt.Errorf("map key: %v", err)
@@ -558,6 +590,11 @@ func pgIsNil(env *pgEnv, x ast.Expr) bool {
 func (g *pg) nilTest(env *pgEnv, x *ast.BinaryExpr, binds *[]string) (pgVal, bool, error) {
 	if x.Op != token.EQL && x.Op != token.NEQ {
 		return pgVal{}, false, nil
+	}
+	if g.top {
+		if v, handled, err := g.topNilTest(env, x, binds); handled {
+			return v, true, err
+		}
 	}
 	var other ast.Expr
 	switch {
@@ -685,6 +722,11 @@ func (g *pg) binary(env *pgEnv, x *ast.BinaryExpr, binds *[]string) (pgVal, erro
 
 // arith: integer arithmetic.  Only uint (modulo 2^64, values are N) is translated; int / int64 arithmetic is refused.
 func (g *pg) arith(op token.Token, a, b pgVal, binds *[]string) (pgVal, error) {
+	if g.top {
+		if v, handled, err := g.topArith(op, a, b, binds); handled {
+			return v, err
+		}
+	}
 	if a.ty == ltUntyped && a.c != nil && b.c != nil {
 		z := new(big.Int)
 		switch op {
@@ -717,6 +759,11 @@ func (g *pg) arith(op token.Token, a, b pgVal, binds *[]string) (pgVal, error) {
 
 // composite literal of type ty; elided element types of slice literals are filled in
 func (g *pg) composite(env *pgEnv, x *ast.CompositeLit, ty string, binds *[]string) (pgVal, error) {
+	if g.top {
+		if v, handled, err := g.topComposite(env, x, ty, binds); handled {
+			return v, err
+		}
+	}
 	if el, ok := pgSlice(ty); ok {
 		var items []string
 		for _, e := range x.Elts {
@@ -824,6 +871,11 @@ func (g *pg) args(env *pgEnv, xs []ast.Expr, params []string, what string, binds
 func (g *pg) call(env *pgEnv, x *ast.CallExpr, binds *[]string) (pgVal, error) {
 	if x.Ellipsis != token.NoPos {
 		return pgVal{}, fmt.Errorf("unsupported call with ...")
+	}
+	if g.top {
+		if v, handled, err := g.topCall(env, x, binds); handled {
+			return v, err
+		}
 	}
 	switch f := x.Fun.(type) {
 	case *ast.Ident:
@@ -1067,6 +1119,10 @@ func (g *pg) assigned(stmts []ast.Stmt, acc map[string]bool) {
 				}
 			case *ast.FuncLit, *ast.GoStmt, *ast.DeferStmt:
 				acc["?"] = true
+			case *ast.CallExpr:
+				if g.top {
+					g.topAssignedCall(n, acc)
+				}
 			}
 			return true
 		})
@@ -1248,16 +1304,25 @@ func (g *pg) stmts(env *pgEnv, list []ast.Stmt, k lcont, ctx *pgCtx) (string, er
 	case *ast.RangeStmt:
 		e2 := env.clone()
 		e2.nonNil = map[string]bool{} // a loop may assign the variables the facts mention
+		if g.top {
+			e2.nonNil = g.topKeepFacts(env, s.Body.List)
+		}
 		return g.rangeLoop(e2, s, after(e2), ctx)
 	case *ast.ForStmt:
 		e2 := env.clone()
 		e2.nonNil = map[string]bool{}
 		return g.forLoop(e2, s, after(e2), ctx)
 	}
+	if es, ok := s.(*ast.ExprStmt); ok && g.top {
+		return g.topExprStmt(env, es, rest, k, ctx)
+	}
 	return "", fmt.Errorf("unsupported statement %T at %s", s, g.fset.Position(s.Pos()))
 }
 
 func (g *pg) ret(env *pgEnv, s *ast.ReturnStmt, ctx *pgCtx) (string, error) {
+	if g.top {
+		return g.topRet(env, s, ctx)
+	}
 	if g.cur.result == "" {
 		if len(s.Results) != 0 {
 			return "", fmt.Errorf("return of a value from a function without result")
@@ -1300,6 +1365,11 @@ func (g *pg) refTuple() string {
 }
 
 func (g *pg) incdec(env *pgEnv, s *ast.IncDecStmt, rest []ast.Stmt, k lcont, ctx *pgCtx) (string, error) {
+	if g.top {
+		if out, handled, err := g.topIncDec(env, s, rest, k, ctx); handled {
+			return out, err
+		}
+	}
 	id, ok := s.X.(*ast.Ident)
 	if !ok || env.vars[id.Name] != ltUint || s.Tok != token.INC {
 		return "", fmt.Errorf("unsupported %s", s.Tok)
@@ -1403,6 +1473,11 @@ func (g *pg) markAppend(env *pgEnv, s *ast.AssignStmt) {
 }
 
 func (g *pg) assign(env *pgEnv, s *ast.AssignStmt, rest []ast.Stmt, k lcont, ctx *pgCtx) (string, error) {
+	if g.top {
+		if out, handled, err := g.topAssign(env, s, rest, k, ctx); handled {
+			return out, err
+		}
+	}
 	if s.Tok != token.DEFINE && s.Tok != token.ASSIGN {
 		return "", fmt.Errorf("unsupported assignment operator %s", s.Tok)
 	}
@@ -1866,6 +1941,9 @@ func (g *pg) rangeLoop(env *pgEnv, s *ast.RangeStmt, after lcont, ctx *pgCtx) (s
 	elTy, isSlice := pgSlice(xs.ty)
 	if !isSlice {
 		if _, _, isMap := pgMap(xs.ty); isMap {
+			if g.top {
+				return g.topRangeMap(env, s, xs, binds, after, ctx)
+			}
 			return "", fmt.Errorf("range over a map: the iteration order is not defined")
 		}
 		var isArr bool
